@@ -21,7 +21,7 @@ FAMILY = {
  'fo8':   ('C:Apex(A, O:Or(L1,L2,L3,L4,L5,L6,L7,L8))',                '8-wide orthogonal region (bit view ends on a byte boundary)'),
  'fo3':   ('C:Apex(A, O:Or(L1, L2, C:P(P1,P2)))',                         'orthogonal region with two plain-state siblings followed by a region sibling'),
  'fp3':   ('C:Apex(A, B, C:D(D1,D2))',                                 'plan fixture: three sub-states of the root, one of them a region'),
- 'fdo':   ('C:Apex(A, O:Or(C:M(M1, C:N(N1, C:R(R1,R2))), C:W(W1,W2)))',  'orthogonal region whose sub-regions nest composites three deep'),
+ 'fdo':   ('C:Apex(A, O:Or(C:Md(M1, C:Nd(N1, C:Rd(R1,R2))), C:W(W1,W2)))',  'orthogonal region whose sub-regions nest composites three deep'),
  'fnu':   ('C:Apex(A, U:U(U1, C:V(V1,V2)), S:Sx(S1,S2))',             'utilitarian region with a nested region, selectable sibling'),
 }
 QUICK = ['f5', 'f10', 'fsel', 'foroot']
